@@ -91,3 +91,67 @@ Example ex_matvec :
   qtat (TMatVec (TLM 2 2 [C 1 1; C 2 1; C 3 1; C 4 1]) (TLV [PD "u" None [0] false; PD "v" None [0] false])) [1] =
   Some (Op OAdd (Op OMul (C 3 1) (PD "u" None [0] false)) (Op OMul (C 4 1) (PD "v" None [0] false))).
 Proof. vm_compute. reflexivity. Qed.
+
+(* ---- round 2: non-vacuity of the new theorems ------------------------------------------- *)
+From Verif.C06 Require Import Sched Ops Phys PhysST Compose.
+
+(* a geometry Jacobian with det J = 2 <> 0 meets the hypothesis of physical_*_sound_2 *)
+Definition exJ (a b : nat) : Qc := match a, b with 0, 0 => q 2 1 | 0, 1 => q 1 1 | 1, 0 => q 0 1 | _, _ => q 1 1 end.
+Example ex_detJ : qeqb (detJ Qc (q 0 1) (q 1 1) Qcplus Qcmult Qcminus Qcdiv Qcopp exJ 2) (q 2 1) = true.
+Proof. vm_compute. reflexivity. Qed.
+Example ex_detJ_nonzero : detJ Qc (q 0 1) (q 1 1) Qcplus Qcmult Qcminus Qcdiv Qcopp exJ 2 <> q 0 1.
+Proof. intro H. apply (f_equal (fun x => qeqb x (q 0 1))) in H. vm_compute in H. discriminate H. Qed.
+
+(* the model's output for the mixed derivative d_x0 d_t^2 u in a 2+1 space-time form: the helper
+   variables carry TWO time derivatives (the multiplicity indices_to_D must keep) *)
+Example ex_spacetime_rpd :
+  qrpd_bf true 3 "u" None [1; 0; 2] true =
+  RNew (Op OAdd (Op OMul (VR "JacInv" [0; 0] [0; 0; 0] false) (VR "_du_102" [] [0; 0; 0] false))
+                (Op OMul (VR "JacInv" [1; 0] [0; 0; 0] false) (VR "_du_012" [] [0; 0; 0] false)))
+       [("_du_102", TS (PD "u" None [1; 0; 2] false)); ("_du_012", TS (PD "u" None [0; 1; 2] false))].
+Proof. vm_compute. reflexivity. Qed.
+
+(* an environment meeting st_env_ok (dim 2, n = 2 time derivatives) exists *)
+Section ExST.
+Variables (Js : nat -> nat -> Qc) (P : nat -> Qc).
+Definition ex_st_env : qenv :=
+  mkEnv (fun _ _ _ _ => Qcplus (Qcmult (Js 0 0) (P 0)) (q 0 1))
+        (fun n Ix _ _ => if String.eqb n "JacInv"
+                         then qeval (PhysST.dummy Qc (q 0 1))
+                                (inv_entry Qc (q 0 1) (q 1 1) Qcopp (Jcm Qc (q 0 1) (q 1 1) Js 2) (nth 0 Ix 0) (nth 1 Ix 0))
+                         else Qcplus (Qcmult (Js 0 0) (P 0)) (q 0 1))
+        (fun _ => q 0 1) (q 0 1) (q 0 1) (fun _ x => x).
+Example ex_st_env_ok :
+  st_env_ok Qc (q 0 1) (q 1 1) Qcplus Qcmult Qcminus Qcdiv Qcopp Js P 2 "u" None 2 ex_st_env.
+Proof.
+  split; [|split].
+  - intros a b. reflexivity.
+  - intros i Hi. reflexivity.
+  - intros i Hi. destruct i; [reflexivity|]. exfalso. simpl in Hi. apply Nat.lt_1_r in Hi. discriminate Hi.
+Qed.
+End ExST.
+
+(* det and inv of a concrete matrix *)
+Definition exA : list (list qexpr) := [[C 2 1; C 1 1]; [C 0 1; C 1 1]].
+Example ex_det : match qe_det 3 exA with Some d => qeqb (qeval ex_env d) (q 2 1) | None => false end = true.
+Proof. vm_compute. reflexivity. Qed.
+Example ex_inv_entry : qeqb (qeval ex_env (inv_entry Qc (q 0 1) (q 1 1) Qcopp exA 0 1)) (q (-1) 2) = true.
+Proof. vm_compute. reflexivity. Qed.
+
+(* vector component substitution: u[1]*v[0] with u <- e_1, v <- e_0 becomes u*v, with u <- e_0 it is 0*v *)
+Example ex_subst_vec :
+  qsubst_vec2 "u" "v" 0 1 (Op OMul (PD "u" (Some 1) [0] false) (PD "v" (Some 0) [0] false)) =
+  Op OMul (PD "u" None [0] false) (PD "v" None [0] false) /\
+  qsubst_vec2 "u" "v" 0 0 (Op OMul (PD "u" (Some 1) [0] false) (PD "v" (Some 0) [0] false)) =
+  Op OMul (Const (Q2Qc 0)) (PD "v" None [0] false).
+Proof. split; vm_compute; reflexivity. Qed.
+
+(* an index inside the shape of a definition accepted by the checker *)
+Example ex_in_shape : in_shape (tshape Qc (TLM 2 2 [C 1 1; C 2 1; C 3 1; C 4 1])) [1; 0].
+Proof. repeat constructor. Qed.
+
+(* a pipeline of two passes on a tree *)
+Example ex_run_passes :
+  run_passes Qc [rpd_node Qc 0%Qc false 2; qfold1] (Op OMul (C 1 1) (PD "u" None [0; 0] true)) =
+  Some (PD "u" None [0; 0] false).
+Proof. vm_compute. reflexivity. Qed.
